@@ -15,7 +15,13 @@ from hypothesis import strategies as st
 
 from .geom import I, aapply, achain, amul, rotate, scale, skew, translate
 
-CSS_NAMES = ["red", "blue", "lime", "orange", "rebeccapurple", "teal", "gold", "black", "white", "salmon", "navy"]
+COMMON_NAMES = ["red", "blue", "lime", "orange", "rebeccapurple", "teal", "gold", "black", "white", "salmon", "navy"]
+try:  # every CSS colour keyword (148), from PIL's table -- the same independent table the reference interpreter reads
+    from PIL import ImageColor as _IC
+
+    CSS_NAMES = sorted(_IC.colormap)
+except Exception:  # pragma: no cover
+    CSS_NAMES = list(COMMON_NAMES)
 
 
 def fnum(v, nd=6):
